@@ -147,17 +147,96 @@ def excuse_applies(B, entry):
     return entry['reason'], None
 
 
+# ------------------------------------------------------------------ structural (name-free) descriptions
+def _short_ty(ty):
+    ty = re.sub(r"'[a-z_]+ ?", '', ty)
+    ty = re.sub(r'\b(?:[a-z_0-9]+::)+', '', ty)
+    return ty
+
+
+def sdesc_operand(B, o, depth=0):
+    if o['k'] == 'const':
+        return B.norm_operand(o).replace('const:', '')
+    p = op_place(o)
+    if p is None:
+        return o['k']
+    return sdesc_place(B, p, depth)
+
+
+def sdesc_place(B, p, depth=0):
+    # `?` unwrapping: (branch(X) as Continue).0  ==>  X?
+    if len(p['p']) == 2 and p['p'][0]['k'] == 'downcast' and p['p'][0]['variant'] == 'Continue' and p['p'][1]['k'] == 'field':
+        ds = B.whole_defs(p['l'])
+        if len(ds) == 1 and ds[0][0] == 'call' and (ds[0][3].get('callee') or '').endswith('Try::branch'):
+            return sdesc_operand(B, ds[0][3]['args'][0], depth) + '?'
+    s = sdesc_local(B, p['l'], depth)
+    for e in p['p']:
+        if e['k'] == 'field':
+            s = '%s.%s' % (s, e.get('name', e['i']))
+        elif e['k'] == 'downcast':
+            s = '%s as %s' % (s, e['variant'])
+        elif e['k'] == 'index':
+            s = '%s[%s]' % (s, sdesc_local(B, e['local'], depth + 1))
+    return s
+
+
+def sdesc_local(B, l, depth=0):
+    """description of a local that does not depend on variable names: parameters by position, single-definition locals by
+    their definition (depth-limited), everything else by type"""
+    if 1 <= l <= B.nargs and not B.whole_defs(l):
+        return 'arg%d' % l
+    if depth > 6:
+        return 'var<%s>' % _short_ty(B.local_ty(l))
+    ds = B.whole_defs(l)
+    if len(ds) == 1:
+        d = ds[0]
+        if d[0] == 'call':
+            t = d[3]
+            c = (t.get('callee') or callee_of(t) or '?').split('::')[-1]
+            if c.startswith('box_assume_init_into_vec'):
+                return 'vec!'
+            if c in ('deref', 'deref_mut', 'as_ref', 'as_mut', 'borrow', 'branch', 'into', 'from', 'to_owned', 'clone', 'to_path_buf', 'as_slice', 'as_str', 'must_use') and t['args']:
+                return sdesc_operand(B, t['args'][0], depth)
+            return '%s(%s)' % (c, ','.join(sdesc_operand(B, a, depth + 1) for a in t['args'][:3]))
+        rv = d[4]
+        k = rv['k']
+        if k in ('use', 'cast'):
+            return sdesc_operand(B, rv['op'], depth)
+        if k in ('ref', 'copyforderef'):
+            return sdesc_place(B, rv['place'], depth)
+        if k == 'binop':
+            return '%s(%s,%s)' % (rv['op'].replace('WithOverflow', ''), sdesc_operand(B, rv['l'], depth + 1), sdesc_operand(B, rv['r'], depth + 1))
+        if k == 'unop':
+            return '%s(%s)' % (rv['op'], sdesc_operand(B, rv['a'], depth + 1))
+        if k == 'aggregate':
+            head = rv.get('variant') or rv['agg']
+            if 0 < len(rv['ops']) <= 3 and rv['agg'] in ('adt', 'tuple'):
+                return '%s(%s)' % (head, ','.join(sdesc_operand(B, o, depth + 1) for o in rv['ops']))
+            return head
+        if k == 'discr':
+            return 'discr(%s)' % sdesc_place(B, rv['place'], depth + 1)
+        return k
+    return 'var<%s>' % _short_ty(B.local_ty(l))
+
+
+def skey_call(B, t):
+    c = (t.get('callee') or callee_of(t) or '?').split('::')[-1]
+    return '%s(%s)' % (c, ','.join(sdesc_operand(B, a) for a in t['args'][:3]))
+
+
 class Site:
     __slots__ = ('fn', 'bb', 'kind', 'desc', 'key', 'loc', 'from_macro')
 
-    def __init__(self, fn, bb, kind, desc, loc, from_macro):
+    def __init__(self, fn, bb, kind, desc, loc, from_macro, sdesc=None):
         self.fn = fn
         self.bb = bb
         self.kind = kind
-        self.desc = desc
+        self.desc = desc          # human readable (uses variable names)
         self.loc = loc
         self.from_macro = from_macro
-        self.key = '%s|%s|%s' % (fn, kind, desc)
+        # the key is structural: it does not change when a variable is renamed, and it does change when the
+        # computation feeding the site changes (so a table excuse never silently covers different code)
+        self.key = '%s|%s|%s' % (fn, kind, sdesc if sdesc is not None else desc)
 
 
 def panic_sites(B):
@@ -172,10 +251,12 @@ def panic_sites(B):
             if msg.startswith('overflow'):
                 op = msg.split(':')[1]
                 desc = '%s(%s,%s)' % (op, describe_operand(B, t['l']), describe_operand(B, t['r']))
-                out.append(Site(B.name, i, 'overflow', desc, B.loc(i), mac))
+                sd = '%s(%s,%s)' % (op, sdesc_operand(B, t['l']), sdesc_operand(B, t['r']))
+                out.append(Site(B.name, i, 'overflow', desc, B.loc(i), mac, sd))
             elif msg == 'bounds':
                 desc = 'len=%s idx=%s' % (describe_operand(B, t['l']), describe_operand(B, t['r']))
-                out.append(Site(B.name, i, 'bounds', desc, B.loc(i), mac))
+                sd = 'len=%s idx=%s' % (sdesc_operand(B, t['l']), sdesc_operand(B, t['r']))
+                out.append(Site(B.name, i, 'bounds', desc, B.loc(i), mac, sd))
             else:
                 out.append(Site(B.name, i, msg, describe_operand(B, t['cond']), B.loc(i), mac))
         elif t['k'] == 'call':
@@ -183,8 +264,19 @@ def panic_sites(B):
             if k:
                 c = t.get('callee') or callee_of(t)
                 args = ','.join(describe_operand(B, a) for a in t['args'][:2])
-                desc = '%s(%s)' % (c.split('::')[-1] if k != 'index' else _index_callee(t), args)
-                out.append(Site(B.name, i, k, desc, B.loc(i), mac))
+                head = c.split('::')[-1] if k != 'index' else _index_callee(t)
+                desc = '%s(%s)' % (head, args)
+                sargs = []
+                for a in t['args'][:2]:
+                    sa = sdesc_operand(B, a)
+                    # a range operand: describe its bounds
+                    la = op_local(a)
+                    if la is not None and sa in ('Range', 'RangeFrom', 'RangeTo', 'RangeInclusive', 'RangeToInclusive'):
+                        dd = B.whole_defs(la)
+                        if len(dd) == 1 and dd[0][0] == 'assign' and dd[0][4]['k'] == 'aggregate':
+                            sa = '%s[%s]' % (sa, ','.join(sdesc_operand(B, o) for o in dd[0][4]['ops']))
+                    sargs.append(sa)
+                out.append(Site(B.name, i, k, desc, B.loc(i), mac, '%s(%s)' % (head, ','.join(sargs))))
     return out
 
 
